@@ -335,16 +335,27 @@ class Skedder(object):
             #its generator is responsible for releasing resources
 
             console.terse("Aborting all ready Taskers ...\n")
-            for i in range(len(ready)): #run each ready tasker once
-                tasker,retime,period = ready.popleft() #pop it off
+            failure = None #first exception raised by a tasker while it was aborted
+            try:
+                for i in range(len(ready)): #run each ready tasker once
+                    tasker,retime,period = ready.popleft() #pop it off
 
-                try:
-                    status = tasker.runner.send(ABORT)
-                    console.terse("Tasker '{0}' aborted\n".format(tasker.name))
-                except StopIteration: #generator returned instead of yielded
-                    console.terse("Tasker '{0}' generator already exited\n".format(tasker.name))
+                    try:
+                        status = tasker.runner.send(ABORT)
+                        console.terse("Tasker '{0}' aborted\n".format(tasker.name))
+                    except StopIteration: #generator returned instead of yielded
+                        console.terse("Tasker '{0}' generator already exited\n".format(tasker.name))
+                    except Exception as ex: #keep aborting the others, re-raise afterwards
+                        console.terse("Tasker '{0}' raised while aborting\n".format(tasker.name))
+                        if failure is None:
+                            failure = ex
 
-                #tasker.runner.close() #kill generator
+                    #tasker.runner.close() #kill generator
+            finally:
+                ready.clear() #never leave stale entries for the next run
+
+            if failure is not None:
+                raise failure
 
         if console._verbosity >= console.Wordage.concise:
             for house in self.houses:
